@@ -64,14 +64,8 @@ func visitorStateReset(r *fw.Run, rule, pkg string, exceptions map[string]string
 		// scope-opening callbacks: state that is re-initialised whenever a document, an operation or a
 		// fragment definition is entered cannot leak from one walk into the next
 		inReset := map[string]bool{tname + ".EnterDocument": true, tname + ".EnterOperationDefinition": true, tname + ".EnterFragmentDefinition": true}
-		// a reset in the Leave callback that closes the scope in which the field grows is accepted as well
-		// (the state is empty between scopes; caveat stated in the evidence: a walk stopped inside the scope
-		// skips the Leave callback)
-		for _, fi := range methods {
-			if strings.HasPrefix(fi.Obj.Name(), "Leave") {
-				inReset[fi.Name()] = true
-			}
-		}
+		// A reset in a Leave callback is NOT accepted: a walk that is stopped inside the scope (any rule sharing the
+		// walker may stop it) skips the Leave callbacks, so the state would survive into the next walk (finding F10).
 		for changed := true; changed; {
 			changed = false
 			for _, fi := range methods {
